@@ -24,7 +24,9 @@ RULE = ('every ordered sequence of length 1..L over 12 import forms (import bs4,
         'import bs4.css, from bs4 import *, import soupsieve, from soupsieve import css_match, import soupsieve.css_parser, '
         'import soupsieve.css_types, import soupsieve.util, import soupsieve.pretty, from soupsieve import *), each in a fresh '
         'interpreter (quick: L=2 exhaustive + 350 sampled of length 3; thorough: L=3 exhaustive); afterwards 3 parsers x 9 '
-        'selectors (incl. text/comment/doctype-sensitive ones) through BeautifulSoup.select and soupsieve.select.  '
+        'selectors (incl. text/comment/doctype-sensitive ones) plus a CDATA/PI/declaration document under html.parser, each '
+        'through BeautifulSoup.select and soupsieve.select and through the limit= / select_one / .css.iselect / .css.filter '
+        'wrappers against their soupsieve counterparts.  '
         'Non-trivial = a sequence containing at least one bs4 form and one soupsieve form, or starting with a bs4 form; '
         'distinct = distinct sequences.')
 ASSUMPTIONS = [
@@ -39,6 +41,8 @@ FORMS = ['import bs4', 'from bs4 import BeautifulSoup', 'import bs4.element', 'i
 MARKUP = ('<!DOCTYPE html><html><head><title>t</title></head><body><!-- note --><div id="d1"><!--only comment--></div>'
           '<div id="d2"> </div><p id="p1">alpha<span id="s1">beta</span><!-- gamma --></p><p id="p2" class="x" lang="en">note'
           '<b id="b1">delta</b></p><ul id="u1"><li id="l1">1</li><li id="l2">2</li><li id="l3">3</li></ul></body></html>')
+MARKUP2 = ('<![CDATA[x]]><html><head></head><body><?pi y?><p id="c1"><![CDATA[ ]]></p><p id="c2"><!DOCTYPE q></p><div id="c3"><p id="c4">alpha</p>'
+           '<![CDATA[beta]]></div></body></html>')
 SELECTORS = [':root', ':empty', 'p:-soup-contains("gamma")', 'p:-soup-contains-own("note")', 'div:-soup-contains("only")',
              'li:nth-child(2n+1)', 'p.x > b, #s1', ':lang(en) b', 'body :not(:empty):first-child']
 PARSERS = ['html.parser', 'lxml', 'html5lib']
@@ -57,7 +61,8 @@ def plan(tier, seed):
 
 
 def run_child(seq, timeout=120):
-    spec = {'imports': [FORMS[i] for i in seq], 'markup': MARKUP, 'selectors': SELECTORS, 'parsers': PARSERS}
+    spec = {'imports': [FORMS[i] for i in seq], 'markup': MARKUP, 'markup2': MARKUP2, 'selectors': SELECTORS + ['div:-soup-contains("beta")'],
+            'parsers': PARSERS}
     d = tempfile.mkdtemp(prefix='c16.')
     try:
         sp, op = os.path.join(d, 'spec.json'), os.path.join(d, 'out.json')
